@@ -1,3 +1,4 @@
+import Rtsp.Generated.Facts.Url
 /-
 Model of the URL handling of gortsplib at byte-string level (property C20, URL fidelity).
 
@@ -19,9 +20,12 @@ zone and user-info modes, URL.String.  A Go `*url.URL` produced by these functio
 its decoded `path` and by `epath`, the text `EscapedPath()` returns for it (`RawPath` itself is never
 read by the code; see `escapedPathOf`).
 
-Core Lean only: this file is compiled into the `oracle_url` driver.
+Core Lean only: this file is compiled into the `oracle_url` driver.  The string constants of the
+protocol ("/trackID=", "trackID=", "rtsp", "rtsps", "/" after Content-Base, the bit size of the track
+id) come from `Generated/Facts/Url.lean`, regenerated from /repo on every run.
 -/
 namespace Rtsp.Url
+open Rtsp.Facts
 
 abbrev Str := List UInt8
 
@@ -305,8 +309,8 @@ def parseRest (scheme rest : Str) (forceQuery : Bool) (rawQuery : Str) : Option 
     | none => none
   | _ => none                                             -- opaque data: rejected by base.ParseURL
 
-def schemeRTSP : Str := [114, 116, 115, 112]
-def schemeRTSPS : Str := [114, 116, 115, 112, 115]
+def schemeRTSP : Str := ofString Facts.Url.schemeRTSP     -- "rtsp"
+def schemeRTSPS : Str := ofString Facts.Url.schemeRTSPS   -- "rtsps"
 
 /-- net/url `Parse` followed by the three checks of base.ParseURL (scheme, opaque, fragment). -/
 def parseStd (s : Str) : Option Url :=
@@ -365,9 +369,9 @@ def parse (s : Str) : Option Url := parseStd (rewriteZone s)
 /-! ### server side (server_session.go, server_conn.go, server_stream.go) -/
 
 /-- "/trackID=" -/
-def trackTag : Str := [47, 116, 114, 97, 99, 107, 73, 68, 61]
+def trackTag : Str := ofString Facts.Url.trackTagQuery
 /-- "trackID=" -/
-def trackCtl : Str := [116, 114, 97, 99, 107, 73, 68, 61]
+def trackCtl : Str := ofString Facts.Url.serverControlPrefix
 
 /-- the loop of `stringsReverseIndex`: tries `i, i-1, …, 0` -/
 def revIndexFrom (s sub : Str) : Nat → Option Nat
@@ -401,8 +405,8 @@ def getPathAndQueryAndTrackID (u : Url) : Option (Str × Str × Str) :=
       else none
 
 /-- "rtsp://" / "rtsps://" -/
-def pfxRTSP : Str := schemeRTSP ++ [58, 47, 47]
-def pfxRTSPS : Str := schemeRTSPS ++ [58, 47, 47]
+def pfxRTSP : Str := ofString Facts.Url.absControlRTSP
+def pfxRTSPS : Str := ofString Facts.Url.absControlRTSPS
 
 def isAbsoluteControl (c : Str) : Bool := hasPrefix pfxRTSP c || hasPrefix pfxRTSPS c
 
@@ -419,7 +423,7 @@ def findMediaByURL (controls : List Str) (path query : Str) (u : Url) : Option N
   let i := controls.findIdx (fun c => mediaMatches c path query u)
   if i < controls.length then some i else none
 
-def maxTrackID : Nat := 2147483647
+def maxTrackID : Nat := 2 ^ Facts.Url.trackIDBits - 1
 
 /-- `strconv.ParseUint(s, 10, 31)` on a non-empty string -/
 def parseUintAux : Nat → Str → Option Nat
@@ -450,7 +454,7 @@ def digits (n : Nat) : Str := digitsAux (n + 1) n []
 def control (i : Nat) : Str := trackCtl ++ digits i
 
 /-- `Content-Base` of a DESCRIBE response: `req.URL.String() + "/"` -/
-def contentBase (reqURL : Url) : Str := reqURL.toStr ++ [47]
+def contentBase (reqURL : Url) : Str := reqURL.toStr ++ ofString Facts.Url.contentBaseSuffix
 
 /-! ### client side (client.go, pkg/description/media.go, pkg/base/request.go) -/
 
